@@ -972,6 +972,67 @@ example (d : DSet ℚ Int Int Int) (hd : ∀ p ∈ d.odesc, p.2.length = d.obs.l
     (fun a b => by simp only [Bool.or_eq_true, decide_eq_true_eq]; omega)
     ⟨0, .none, none, none, false⟩ (by decide) trivial d hd
 
+/-! ### reuse: a call leaves the dataset object as it found it (round 4) -/
+
+/-- `_parse_input` never hands out the dataset's own array after centring, and without centring
+    it does not write: whatever branch, `dataset.measurements` is unchanged, and the working
+    array is shared only in the `descriptor=None`, no-centring case (leaves `parseShares`,
+    `centreInPlace` from today's source) -/
+theorem parseInput_keeps_dataset (P : Nat) (hasDesc flag : Bool) (data means : List (Row K)) :
+    (parseMem P hasDesc flag data means).2 = data ∧
+    ((parseMem P hasDesc flag data means).1.shared = true → hasDesc = false ∧ flag = false) := by
+  cases hasDesc <;> cases flag <;>
+    simp [parseMem, Rsa.Gen.C01.parseShares, Rsa.Gen.C01.centreInPlace]
+
+/-- one `calc_rdm` call, any of the four methods, with or without condition descriptor, any
+    `remove_mean`: `dataset.measurements` afterwards is what it was before.  Unfolds the leaves
+    `dispatch`, `parseFlag` (correlation always centres ⇒ its in-place normalisation `ma /= …`
+    hits a fresh array), `estWrites`, `parseShares`, `centreInPlace`. -/
+theorem call_keeps_dataset (P : Nat) (sqrt : K → K) (lab : List L) (c : Call K)
+    (hm : c.opts.method < 4) (rows : List (Row K)) :
+    c.after P sqrt lab rows = rows := by
+  have h : c.opts.method = 0 ∨ c.opts.method = 1 ∨ c.opts.method = 2 ∨ c.opts.method = 3 := by
+    omega
+  rcases h with h | h | h | h <;> cases hd : c.hasDesc <;> cases hr : c.opts.removeMean <;>
+    simp [Call.after, callMem, parseMem, h, hd, hr, b2n, Rsa.Gen.C01.dispatch,
+      Rsa.Gen.C01.parseFlag, Rsa.Gen.C01.estWrites, Rsa.Gen.C01.parseShares,
+      Rsa.Gen.C01.centreInPlace]
+
+/-- **reuse sessions**: successive calls (any methods / options, with or without descriptor) on
+    one dataset object return exactly what each call returns on the original data, and the
+    object ends as it began — the value of a call does not depend on the object's history -/
+theorem session_calls_independent (P : Nat) (sqrt lg : K → K) (lab : List L)
+    (calls : List (Call K)) (hm : ∀ c ∈ calls, c.opts.method < 4) (rows : List (Row K)) :
+    runSession P sqrt lg lab calls rows =
+      (calls.map (fun c => c.result P sqrt lg lab rows), rows) := by
+  induction calls with
+  | nil => rfl
+  | cons c cs ih =>
+    have hc := call_keeps_dataset P sqrt lab c (hm c (by simp)) rows
+    have := ih (fun c' hc' => hm c' (by simp [hc']))
+    simp only [runSession, hc, this, List.map_cons]
+
+/-- every call of a session is the formula on the condition means of the ORIGINAL data
+    (`session_calls_independent` + `calcRdm_dispatch`) -/
+theorem session_call_value (P : Nat) (sqrt lg : K → K) (lab : List L)
+    (calls : List (Call K)) (hm : ∀ c ∈ calls, c.opts.method < 4) (rows : List (Row K))
+    (i : Nat) (hi : i < calls.length) :
+    (runSession P sqrt lg lab calls rows).1[i]? =
+      some (some (distVec P sqrt lg calls[i].opts.spec.1 calls[i].opts.spec.2
+        (if calls[i].hasDesc then condMeans (lab.zip rows) else rows))) := by
+  rw [session_calls_independent P sqrt lg lab calls hm rows]
+  simp only [List.getElem?_map, List.getElem?_eq_getElem hi, Option.map_some, Call.result]
+  rw [calcRdm_dispatch P sqrt lg calls[i].opts (hm _ (List.getElem_mem hi))]
+
+/-- non-vacuity: correlation without descriptor, then euclidean with `remove_mean` and a
+    descriptor, then poisson — the session of the seeded change — meets the hypotheses -/
+example (rows : List (Row ℚ)) :=
+  session_calls_independent (K := ℚ) 2 id id [(0 : Int), 1, 0]
+    [⟨⟨1, none, none, none, false⟩, false⟩, ⟨⟨0, none, none, none, true⟩, true⟩,
+     ⟨⟨3, none, none, none, false⟩, false⟩]
+    (by intro c hc; simp only [List.mem_cons, List.not_mem_nil, or_false] at hc
+        rcases hc with rfl | rfl | rfl <;> decide) rows
+
 end callLayer
 
 /-! ### movies -/
